@@ -1,6 +1,7 @@
 (* Base definitions: outcomes, the reader as a free monad, primitives of reader.rs.
    No proofs here (the model must stay runnable when a proof breaks). *)
 From Coq Require Export ZArith List Bool Lia FMapPositive.
+From Ase Require Export Base.ZSort.
 Export ListNotations.
 Open Scope Z_scope.
 Open Scope bool_scope.
@@ -155,7 +156,10 @@ Definition str : IT (list Z) :=
 (* small list / array utilities *)
 
 Definition zlen {A} (l : list A) : Z := Z.of_nat (length l).
-Definition nthz {A} (l : list A) (i : Z) : option A := if i <? 0 then None else nth_error l (Z.to_nat i).
+(* l[i]; recursion on the list, so an index of 2^32-1 costs nothing *)
+Fixpoint nthz_aux {A} (l : list A) (i : Z) {struct l} : option A :=
+  match l with [] => None | x :: t => if i =? 0 then Some x else nthz_aux t (i - 1) end.
+Definition nthz {A} (l : list A) (i : Z) : option A := if i <? 0 then None else nthz_aux l i.
 
 Fixpoint upd_nth {A} (l : list A) (i : nat) (x : A) : list A :=
   match l, i with
@@ -165,7 +169,7 @@ Fixpoint upd_nth {A} (l : list A) (i : nat) (x : A) : list A :=
   end.
 
 (* indices 0 .. n-1 *)
-Definition zrange (lo : Z) (n : nat) : list Z := map (fun i => lo + Z.of_nat i) (seq 0 n).
+Fixpoint zrange (lo : Z) (n : nat) : list Z := match n with O => [] | S k => lo :: zrange (lo + 1) k end.
 Definition ziota (n : Z) : list Z := zrange 0 (Z.to_nat n).
 
 (* read-only arrays with logarithmic access (Vec<T> that is only indexed) *)
@@ -186,7 +190,9 @@ Definition zmap (A : Type) := PositiveMap.t A.
 Definition zfind {A} (k : Z) (m : zmap A) : option A := if k <? 0 then None else PositiveMap.find (akey k) m.
 Definition zadd {A} (k : Z) (v : A) (m : zmap A) : zmap A := PositiveMap.add (akey k) v m.
 Definition zempty {A} : zmap A := PositiveMap.empty A.
-(* ascending by key *)
+(* ascending by key (PositiveMap.elements is ordered by the bits of the key, not numerically) *)
+Definition zkeys {A} (m : zmap A) : list Z :=
+  ZSort.sort (map (fun kv => Z.pos (fst kv) - 1) (PositiveMap.elements m)).
 Definition zelements {A} (m : zmap A) : list (Z * A) :=
-  map (fun kv => (Z.pos (fst kv) - 1, snd kv)) (PositiveMap.elements m).
+  flat_map (fun k => match zfind k m with Some v => [(k, v)] | None => [] end) (zkeys m).
 Definition zcard {A} (m : zmap A) : Z := Z.of_nat (PositiveMap.cardinal m).
